@@ -1,6 +1,111 @@
-//! C10 — not built yet.
+//! C10 — a refused request changes nothing.
+//!
+//! Group 0 (`C10Sim`): the node-level simulator (`sim.rs`): random request sequences through the real
+//! vls-core entry points, each inside a persister transaction as vlsd runs it.  Monitor: around every
+//! request that returns `Err`, the full in-memory view (enforcement state of every channel, monitor
+//! state, node invoices/payments/allowlist/velocity/high-water mark, tracker) and the committed store
+//! are identical before and after, and `prepare()` reports no pending mutation.
+//! Correspondence: the node-level requests (allowlist, keysend, new/forget channel) are also run on
+//! the Lean model `nodereq`; channel/tracker requests are compared by the models of C01–C03/C13.
+use super::sim::*;
 use crate::common::*;
 
+pub struct C10Sim;
+
+pub fn node_model_line(op: &str) -> Option<String> {
+    let t: Vec<&str> = op.split_whitespace().collect();
+    match t.as_slice() {
+        ["al", ..] | ["ks", ..] | ["ksdup", ..] | ["newch", ..] | ["forget", ..] | ["restart"] => Some(op.to_string()),
+        _ => None,
+    }
+}
+
+/// digest of the node-level state the `nodereq` model tracks
+pub fn node_digest(sim: &Sim) -> String {
+    let node = sim.node();
+    let al: Vec<String> = node.allowlist().unwrap_or_default().into_iter().map(|s| {
+        if s.contains("hetd7") { "g".to_string() } else if s.contains("ycu764") { "g2".to_string() } else { s }
+    }).collect();
+    let st = node.get_state();
+    let nchan = node.get_channels().len();
+    format!("al=[{}] inv={} hwm={} chans={}", al.join(","), st.invoices.len(), st.dbid_high_water_mark, nchan)
+}
+
+impl Group for C10Sim {
+    fn property(&self) -> &'static str { "C10" }
+    fn model(&self) -> Option<&'static str> { Some("nodereq") }
+    fn rule(&self) -> &'static str {
+        "random sequences (len 6-14 quick, up to 30 thorough) over validate-holder/revoke/sign-counterparty/counterparty-revocation/\
+         sign-holder/mutual-close (commitment numbers relative to the counters: 0, +-1, +-2; good and bad signatures/secrets), allowlist \
+         add/set/remove with good, bad and mixed entries, keysend (new, duplicate hash, over the velocity limit), new/forget channel, heartbeat, \
+         block add/remove (good and bad), restart; non-trivial = at least one refused (Err) request after at least one accepted state-changing request"
+    }
+    fn budget(&self, tier: Tier) -> usize { if tier == Tier::Quick { 120 } else { 3000 } }
+    fn model_line(&self, op: &str) -> Option<String> { node_model_line(op) }
+    fn corpus(&self) -> Vec<Vec<String>> {
+        let c = |s: &str| s.split('|').map(|x| x.to_string()).collect::<Vec<_>>();
+        vec![
+            // F3: allowlist update with one bad entry
+            c("al add g|al set m|al rm m|al add m|al set b"),
+            // F9: refused counterparty revocation (revoking the latest signed commitment)
+            c("scp 0 0|cpr 0 g|scp 0 1|cpr 0 g|cpr 1 g"),
+            // F4: rejected block removal, then the correct one
+            c("blk+ g|blk+ g|blk- b|blk- g|blk- g"),
+            // revoke without validate, validate twice, revoke stale/future
+            c("rv 0|vh 0 g 0|vh 0 g 1|vh 1 g 0|rv 1|rv 0|rv 0|rv -1|rv -2"),
+            // closing then further updates are refused
+            c("vh 0 g 0|sh 0|rv 0|vh 1 g 3|mc g|scp 0 0"),
+            c("ks 1000|ksdup 7|newch 3|newch 3|forget 1|newch 3|newch 2|forget 0|hb|restart|newch 1"),
+        ]
+    }
+    fn gen_case(&self, rng: &mut Rng, tier: Tier) -> Vec<String> {
+        let len = rng.range(6, if tier == Tier::Quick { 14 } else { 30 }) as usize;
+        gen_ops(rng, len)
+    }
+    fn exec_case(&self, ops: &[String]) -> CaseOut {
+        let mut co = CaseOut::default();
+        let mut sim = Sim::new();
+        let (mut seen_ok_change, mut seen_err) = (false, false);
+        for (i, op) in ops.iter().enumerate() {
+            let before_view = view(&sim.node(), false);
+            let before_store = sim.store_dump();
+            let (out, pending) = exec_op(&mut sim, op);
+            let after_view = view(&sim.node(), false);
+            let after_store = sim.store_dump();
+            let kind = op.split(' ').next().unwrap_or("");
+            co.tags.insert(format!("{}:{}", kind, out.class().split(':').next().unwrap()));
+            match &out {
+                Outcome::Err(_) => {
+                    seen_err = true;
+                    let d = diff_views(&before_view, &after_view);
+                    if !d.is_empty() {
+                        co.violations.push(Violation { kind: format!("refused-request-changed-memory:{}", kind), desc: format!("{} returned {} but changed {:?}", op, out.class(), d), at: i });
+                    }
+                    if before_store != after_store {
+                        let ks: Vec<&String> = after_store.iter().filter(|(k, v)| before_store.get(*k) != Some(v)).map(|(k, _)| k).collect();
+                        co.violations.push(Violation { kind: format!("refused-request-changed-store:{}", kind), desc: format!("{} returned {} but the committed store changed at {:?}", op, out.class(), ks), at: i });
+                    }
+                    if pending > 0 {
+                        co.violations.push(Violation { kind: format!("refused-request-pending-mutations:{}", kind), desc: format!("{} returned {} with {} pending mutations in the transactional store", op, out.class(), pending), at: i });
+                    }
+                }
+                Outcome::Ok => {
+                    if before_view != after_view { seen_ok_change = true; }
+                }
+                Outcome::Panic(_) => {}
+            }
+            let line = if node_model_line(op).is_some() {
+                format!("{} {}", out.class().split(':').next().unwrap(), node_digest(&sim))
+            } else {
+                out.class()
+            };
+            co.out.push(line);
+        }
+        co.nontrivial = seen_ok_change && seen_err;
+        co
+    }
+}
+
 pub fn groups() -> Vec<Box<dyn Group>> {
-    vec![]
+    vec![Box::new(C10Sim)]
 }
